@@ -1334,7 +1334,9 @@ func (e *engine) processSteps(workerID uint64,
 	// before those entries are persisted to disk
 	for _, ud := range nodeUpdates {
 		node := nodes[ud.ShardID]
-		node.sendReplicateMessages(ud)
+		if !replicateAfterPersist(ud) {
+			node.sendReplicateMessages(ud)
+		}
 		node.processReadyToRead(ud)
 		node.processDroppedEntries(ud)
 		node.processDroppedReadIndexes(ud)
